@@ -749,3 +749,18 @@ package controller
 //@   invariant [C11] forall j :: 0 <= j && j < #i ==> nodegroupMap[opts.NodeGroups[j].Name].Opts.DryMode == opts.NodeGroups[j].DryMode
 //@   invariant [C03,C04] forall j :: 0 <= j && j < #i ==> nodegroupMap[opts.NodeGroups[j].Name].Opts.MinNodes == (opts.NodeGroups[j].MinNodes == 0 && opts.NodeGroups[j].MaxNodes == 0 ? cmin(opts.NodeGroups[j].CloudProviderGroupName) : opts.NodeGroups[j].MinNodes) && nodegroupMap[opts.NodeGroups[j].Name].Opts.MaxNodes == (opts.NodeGroups[j].MinNodes == 0 && opts.NodeGroups[j].MaxNodes == 0 ? cmax(opts.NodeGroups[j].CloudProviderGroupName) : opts.NodeGroups[j].MaxNodes)
 //@   invariant forall j :: 0 <= j && j < #i ==> has(nodegroupMap, opts.NodeGroups[j].Name) && birth(nodegroupMap[opts.NodeGroups[j].Name]) < now && groupInv(nodegroupMap[opts.NodeGroups[j].Name])
+
+// ---------------------------------------------------------------- controller.go: RunForever (C20: the induction over scans)
+
+// Every scan starts from the invariant: RunOnce re-establishes it whenever it returns nil, and the main loop
+// runs the next scan only then; it never returns without an error (a failed scan's error, or the stop signal).
+// When the ticker fires is not modelled (the select is a free choice of a ready branch).
+//@ func (*Controller).RunForever(c, runImmediately) (err)
+//@   requires ctlInv(c)
+//@   modifies Jlen, Jkind, Jname, Jnode, Jok, Jesc, Jnum, Jerr, TGT, clock, nTaintOK, nUntaintOK, getSeen, nGet, nKFail, LNb, LNo, LNl, LNby, LNok, LPb, LPo, LPl, nScans, nBuildFail, c.cloudProvider
+//@   modifies mapvals(c.nodeGroups), allof("[]string")
+//@   ensures [C20] err != nil
+//@ loop #0
+//@   modifies Jlen, Jkind, Jname, Jnode, Jok, Jesc, Jnum, Jerr, TGT, clock, nTaintOK, nUntaintOK, getSeen, nGet, nKFail, LNb, LNo, LNl, LNby, LNok, LPb, LPo, LPl, nScans, nBuildFail, c.cloudProvider
+//@   modifies mapvals(c.nodeGroups), allof("[]string")
+//@   invariant [C20] ctlInv(c)
